@@ -113,17 +113,24 @@ def explore(ck, plan, stats, workers):
         cs = cases[c["id"]]
         ck.disagree({"kind": cs["kind"], "sig": "crash", "signal": c["crash"], "what": c.get("what", "")},
                     {"plan": {k: v for k, v in plan.items() if k != "exe"}, "scenario": short_steps(cs["steps"]), "case": cs})
-    obsp = os.path.join(w, "obsall_%s.ndjson" % tag)
-    vlib.write_ndjson(obsp, done)
-    # 3. judgement by TLC
+    # 3. judgement by TLC, in chunks (the whole log of a large plan does not fit the heap comfortably)
     jcfg = os.path.join(w, "judge_%s.cfg" % tag)
     open(jcfg, "w").write(cfg_common(plan) + "POSTCONDITION AllExamined\nCHECK_DEADLOCK FALSE\n")
-    jres = vlib.run_tlc("TraceTransforms", jcfg, workers=workers, env={"OBS": obsp}, timeout=3000)
-    if jres.violation or "NOT-ALL-EXAMINED" in jres.stdout:
-        raise Broken("TraceTransforms did not examine the whole log:\n" + (jres.violation or jres.stdout[-2000:]))
+    CH = 15000
+    jemitted = []
+    jwall = 0.0
+    for c0 in range(0, len(done), CH):
+        obsp = os.path.join(w, "obs_%s_%d.ndjson" % (tag, c0))
+        vlib.write_ndjson(obsp, done[c0:c0 + CH])
+        jres = vlib.run_tlc("TraceTransforms", jcfg, workers=workers, env={"OBS": obsp}, timeout=3000)
+        if jres.violation or "NOT-ALL-EXAMINED" in jres.stdout:
+            raise Broken("TraceTransforms did not examine the whole log:\n" + (jres.violation or jres.stdout[-2000:]))
+        jemitted += jres.emitted
+        jwall += jres.wall
+        os.remove(obsp)
     byid = {r["id"]: r for r in done}
     nrej = 0
-    for rj in jres.emitted:
+    for rj in jemitted:
         r = byid[rj["id"]]
         cs = cases[rj["id"]]
         for f in rj["fails"]:
@@ -146,7 +153,7 @@ def explore(ck, plan, stats, workers):
     # statistics / vacuity counters
     # worst error among the comparisons TLC accepted (documents the margin of the accuracy constants)
     rejected = set()
-    for rj in jres.emitted:
+    for rj in jemitted:
         for f in rj["fails"]:
             rejected.add((rj["id"], f["tag"], f["step"], f["name"] if f["tag"] in ("form", "alg") else "", f["k"]))
 
@@ -210,7 +217,7 @@ def explore(ck, plan, stats, workers):
         ck.sample({"plan": tag, "kind": r["kind"], "scenario": short_steps(r["steps"]),
                    "arrays": cases[r["id"]]["arrs"], "same": r["same"], "fresh": r["fresh"], "exact": r["exact"]})
     log("[C18] %s: %d scenarios (TLC %d states in %.1fs), executed on %d shard(s), judged by TLC in %.1fs, %d new rejection(s)" %
-        (tag, len(cases), res.distinct, res.wall, nshards, jres.wall, nrej))
+        (tag, len(cases), res.distinct, res.wall, nshards, jwall, nrej))
 
 
 def run(tier):
@@ -228,10 +235,11 @@ def run(tier):
         plans.append(dict(full, tag="len4small", seed=seed + 1, maxlen=4, orders=[20], rawsets=["skew", "tsel"],
                           multisets=["m2", "m3"], rotelems=[2, 5, 7, 10], kinds=["AH", "AE", "PCA", "MAF", "ROT"]))
     else:
-        plans.append(dict(full, tag="len4", seed=seed, maxlen=4, orders=[5, 12, 20, 30, 40]))
+        plans.append(dict(full, tag="len4hermite", seed=seed, maxlen=4, orders=[5, 12, 20, 30, 40], kinds=["AH"]))
+        plans.append(dict(full, tag="len4others", seed=seed, maxlen=4, kinds=["AE", "PCA", "MAF", "NS", "ROT"]))
         plans.append(dict(full, tag="len5small", seed=seed + 1, maxlen=5, orders=[20], rawsets=["tsel"], multisets=["m2"],
                           rotelems=[2, 5, 7, 10]))
-        for d in range(2, 8):
+        for d in range(2, 6):
             plans.append(dict(full, tag="len3s%d" % d, seed=seed + d, maxlen=3, orders=[5, 8, 12, 20, 30, 40]))
     stats = {"cases": collections.Counter(), "ops": collections.Counter(), "refits": collections.Counter(),
              "forms": collections.Counter(), "alg": collections.Counter(), "mono": collections.Counter(),
